@@ -20,6 +20,11 @@ fn search_cfgs(kind: Kind, variant: Variant) -> Vec<Cfg> {
 
 /// E2 part shared by C01-C05: one kind, the property's methods, both variants.
 pub fn e2_search(prop: &str, kind: Kind, methods: &[Method], tier: &str, acc: &mut Acc, bounds: &mut Vec<String>) {
+    if std::env::var("VERIF_SKIP_E2").is_ok() {
+        // debugging aid: lets the table-level engines be exercised alone against a seeded change
+        bounds.push("E2 skipped (VERIF_SKIP_E2 set) - NOT a complete run".into());
+        return;
+    }
     let thorough = tier_is_thorough(tier);
     let bembs = enumr::byte_embeddings(util::seed());
     let cembs = enumr::char_embeddings();
@@ -31,7 +36,7 @@ pub fn e2_search(prop: &str, kind: Kind, methods: &[Method], tier: &str, acc: &m
     let mut plan: Vec<(Scope, Vec<usize>, Vec<usize>)> = Vec::new();
     if !thorough {
         if leftmost {
-            plan.push((Scope::new(2, 4, 3, order, 7, 1), vec![0, 1], vec![0]));
+            plan.push((Scope::new(2, 4, 3, order, if kind == Kind::LF { 6 } else { 7 }, 1), vec![0, 1], vec![0]));
             // pattern length 5 and 6: deep leftmost fail chains need it
             plan.push((Scope::new(2, 5, 3, Order::SetsBothWays, 7, 0), vec![0], vec![1]));
             plan.push((Scope::new(2, 6, 2, Order::AllOrders, 8, 0), vec![1], vec![]));
@@ -65,13 +70,19 @@ pub fn e2_search(prop: &str, kind: Kind, methods: &[Method], tier: &str, acc: &m
         let ce: Vec<_> = ci.iter().filter_map(|&i| cembs.get(i).cloned()).collect();
         let bc = search_cfgs(kind, Variant::Byte);
         let a = e2::run_scope(&scope, &be, |ctx, acc| {
-            e2::sweep_searches(prop, ctx, &bc, &mo, false, acc)
+            e2::sweep_searches(prop, ctx, &bc, &mo, false, acc);
+            if kind == Kind::LF && scope.maxlen <= 4 {
+                e2::shadow_differential(prop, ctx, &[Variant::Byte], acc);
+            }
         });
         acc.merge(a);
         let mut both = search_cfgs(kind, Variant::Char);
         both.push(Cfg::new(Variant::Byte, kind, None, Entry::Builder));
         let a = e2::run_scope(&scope, &ce, |ctx, acc| {
-            e2::sweep_searches(prop, ctx, &both, &mo, false, acc)
+            e2::sweep_searches(prop, ctx, &both, &mo, false, acc);
+            if kind == Kind::LF && scope.maxlen <= 4 {
+                e2::shadow_differential(prop, ctx, &[Variant::Char], acc);
+            }
         });
         acc.merge(a);
         bounds.push(format!(
@@ -90,6 +101,9 @@ pub fn pop_table(prop: &str, kinds: &[Kind], cover_methods: &[Method], tier: &st
     let a = for_population(prop, level, kinds, &nfbs, |item, acc| {
         if let Some(ex) = e1::check_table(prop, &item.built, &item.fam.pats, &item.origin, acc) {
             let n = item.built.cfg.nfb;
+            if (prop == "C03" || prop == "C04") && item.built.cfg.kind != Kind::Std && (n == Some(1) || n.is_none() || level >= 1 && n == Some(3)) {
+                crate::lm::check_leftmost(prop, &item.built, &item.fam.pats, &item.origin, acc);
+            }
             if !cover_methods.is_empty() && (n == Some(1) || n.is_none() || n == Some(3)) {
                 let ms: Vec<Method> = cover_methods
                     .iter()
@@ -114,11 +128,21 @@ pub fn pop_table(prop: &str, kinds: &[Kind], cover_methods: &[Method], tier: &st
 /// E1 (+E3) on every automaton of a small scope (ties the small scope to the table level too).
 pub fn small_table(prop: &str, kinds: &[Kind], cover_methods: &[Method], tier: &str, acc: &mut Acc, bounds: &mut Vec<String>) {
     let thorough = tier_is_thorough(tier);
-    let scope = if thorough { Scope::new(3, 3, 3, Order::SetsBothWays, 0, 0) } else { Scope::new(2, 3, 3, Order::SetsBothWays, 0, 0) };
+    let leftmost = kinds.iter().all(|k| *k != Kind::Std) && (prop == "C03" || prop == "C04");
+    let scopes: Vec<Scope> = match (thorough, leftmost) {
+        (false, false) => vec![Scope::new(2, 3, 3, Order::SetsBothWays, 0, 0)],
+        // the leftmost product exploration (E7) wants deeper tries: pattern length 4 / 5
+        (false, true) => vec![Scope::new(2, 4, 3, if prop == "C04" { Order::SetsBothWays } else { Order::Sets }, 0, 0)],
+        (true, false) => vec![Scope::new(3, 3, 3, Order::SetsBothWays, 0, 0)],
+        (true, true) => vec![Scope::new(3, 3, 3, Order::SetsBothWays, 0, 0), Scope::new(2, 5, 3, Order::Sets, 0, 0)],
+    };
     let bembs = enumr::byte_embeddings(util::seed());
     let cembs = enumr::char_embeddings();
-    for (variant, embs) in [(Variant::Byte, &bembs), (Variant::Char, &cembs)] {
-        let a = e2::run_scope(&scope, embs, |ctx, acc| {
+    for scope in &scopes {
+    let bsel: Vec<enumr::Emb> = if scope.maxlen >= 4 { bembs.iter().take(2).cloned().collect() } else { bembs.clone() };
+    let csel: Vec<enumr::Emb> = if scope.maxlen >= 4 { cembs.iter().take(2).cloned().collect() } else { cembs.clone() };
+    for (variant, embs) in [(Variant::Byte, &bsel), (Variant::Char, &csel)] {
+        let a = e2::run_scope(scope, embs, |ctx, acc| {
             for &kind in kinds {
                 for nfb in [Some(1), None] {
                     let cfg = Cfg::new(variant, kind, nfb, Entry::Builder);
@@ -126,6 +150,9 @@ pub fn small_table(prop: &str, kinds: &[Kind], cover_methods: &[Method], tier: &
                     util::set_case(prop, "table", origin.clone());
                     if let Some(b) = e2::build_or_violate(prop, "table", cfg, &ctx.pats, None, acc) {
                         if let Some(ex) = e1::check_table(prop, &b, &ctx.pats, &origin, acc) {
+                            if (prop == "C03" || prop == "C04") && kind != Kind::Std {
+                                crate::lm::check_leftmost(prop, &b, &ctx.pats, &origin, acc);
+                            }
                             if !cover_methods.is_empty() && nfb.is_none() {
                                 let ms: Vec<Method> = cover_methods.iter().copied()
                                     .filter(|m| (*m == Method::Lm) == (kind != Kind::Std)).collect();
@@ -138,7 +165,8 @@ pub fn small_table(prop: &str, kinds: &[Kind], cover_methods: &[Method], tier: &
         });
         acc.merge(a);
     }
-    bounds.push(format!("E1{} every automaton of {} x all embeddings x nfb {{1,default}}", if cover_methods.is_empty() { "" } else { "+E3" }, scope.name()));
+    bounds.push(format!("E1{}{} every automaton of {} x {} byte + {} char embeddings x nfb {{1,default}}", if cover_methods.is_empty() { "" } else { "+E3" }, if leftmost { "+E7" } else { "" }, scope.name(), bsel.len(), csel.len()));
+    }
 }
 
 pub struct Outcome {
@@ -172,14 +200,14 @@ pub fn run_property(prop: &str, tier: &str) -> Option<Outcome> {
             pop_table(prop, &[Kind::LL], &[Method::Lm], tier, &mut acc, &mut bounds);
             small_table(prop, &[Kind::LL], &[Method::Lm], tier, &mut acc, &mut bounds);
             crate::scale::scale_cases(prop, &[Kind::LL], &[Method::Lm], tier, &mut acc, &mut bounds);
-            ("exploration", "non-trivial = some occurrence is suppressed and leftmost-longest differs from leftmost-first".into(), vec![])
+            ("model_checking", "states = pairs (iterator configuration, reference-machine state) of the leftmost product exploration + table states, transitions = pairs x labels; E2 cases: non-trivial = some occurrence is suppressed and leftmost-longest differs from leftmost-first".into(), vec!["the iterator model of E7 mirrors LestmostFindIterator::next; it is replayed on the public iterator for every explored pair".into()])
         }
         "C04" => {
             e2_search(prop, Kind::LF, &[Method::Lm], tier, &mut acc, &mut bounds);
             pop_table(prop, &[Kind::LF], &[Method::Lm], tier, &mut acc, &mut bounds);
             small_table(prop, &[Kind::LF], &[Method::Lm], tier, &mut acc, &mut bounds);
             crate::scale::scale_cases(prop, &[Kind::LF], &[Method::Lm], tier, &mut acc, &mut bounds);
-            ("exploration", "non-trivial = some occurrence is suppressed and leftmost-first differs from leftmost-longest".into(), vec![])
+            ("model_checking", "states = pairs (iterator configuration, reference-machine state) of the leftmost product exploration + table states, transitions = pairs x labels; E2 cases: non-trivial = some occurrence is suppressed and leftmost-first differs from leftmost-longest".into(), vec!["the iterator model of E7 mirrors LestmostFindIterator::next; it is replayed on the public iterator for every explored pair".into()])
         }
         "C05" => {
             e2_search(prop, Kind::Std, &[Method::NoSuf, Method::NoSufIt], tier, &mut acc, &mut bounds);
